@@ -508,6 +508,11 @@ def make_suggest(shape):
                 for j in range(shape.get("prefix_items", 1)):
                     kind = shape.get("prefix_kind", "Other")
                     txt = orc.sym_string("base", shape.get("base_len", 1), BENGALI_LO, 0x09DF)
+                    if j == 0 and shape.get("first_base_may_be_empty"):
+                        # an auto-correct entry whose expansion converts to nothing sits in the memo entry as an empty candidate
+                        eb = z3.Bool(orc.fresh("base_empty"))
+                        if st.choose([eb, z3.Not(eb)]) == 0:
+                            txt = []
                     bd = st.sym_bv(orc.fresh("based"), 8) if shape.get("dist_mode", "symbolic") == "symbolic" else 10 * (i + j)
                     items.append(mk_rank(prog, kind, txt, bd) if kind != "First" else mk_rank(prog, "First", txt))
                 base_items[i] = items
@@ -1754,7 +1759,7 @@ def suffix_search(vs):
             scs.append({"steps": steps})
             meta.append((b2, sk, sv))
     # bases that have a user auto-correct entry (one of them overriding a bundled entry): what is offered for the base alone must come back joined
-    user_ac = {"bd": "bangladesh", "atm": "oTOmeTik", "xq": "kotha"}
+    user_ac = {"bd": "bangladesh", "atm": "oTOmeTik", "xq": "kotha", "as": "", "forma": "o`"}     # the last two convert to nothing
     ucfg = dict(cfg)
     for b2 in user_ac:
         steps0 = [{"op": "write_user_file", "name": "autocorrect.json", "content": json.dumps(user_ac)}, {"op": "new", "config": ucfg}] + [{"op": "key", "key": keys[ch], "sel": 0} for ch in b2]
@@ -1884,6 +1889,8 @@ def obl_suffix(check, conv_table, thorough=False, budget_s=None):
     # the base typed first (its list computed by the code from the oracles: dictionary word, bundled / user auto-correct entry), then the suffix
     # a context that has composed any number of other words before this one (memo of any size): the forms are as complete
     shapes += base_shapes([("", "")], [3], conv_table, **dict(kw, memo_extra=True, fixed={"include_english": False, "ansi": False, "smart_quote": False}))
+    # two candidates per base, the first possibly empty (an auto-correct expansion that converts to nothing): the other one is joined all the same
+    shapes += base_shapes([("", "")], [3], conv_table, **dict(kw, prefix_items=2, first_base_may_be_empty=True, dict_max=0, fixed={"include_english": False, "ansi": False, "smart_quote": False}))
     for ac, uac, dm in (((True, False, 1), (False, True, 1), (True, True, 0)) if thorough else ((False, False, 1), (True, True, 0))):
         shapes += base_shapes([("", "")], [3] + ([4] if thorough and dm else []), conv_table, **dict(kw, mode="suffix_pair", pair_base=2, autocorrect=ac, user_autocorrect=uac, dict_max=dm,
                                                                                                    fixed={"include_english": False, "ansi": False, "smart_quote": False}))
